@@ -777,6 +777,11 @@ class CompiledSimulation(object):
         roms = {mem for mem in mems if isinstance(mem, RomBlock)}
         self._declare_roms(write, roms)
         mems = {mem for mem in mems if isinstance(mem, MemBlock) and not isinstance(mem, RomBlock)}
+        for mem in mems:
+            if mem.addrwidth > 64:
+                # the hashmap is keyed on a single 64-bit limb; wider addresses would alias
+                raise PyrtlError('CompiledSimulation does not support memories with an addrwidth '
+                                 'greater than 64 (%s has %d)' % (mem.name, mem.addrwidth))
         self._declare_mems(write, mems)
 
         # single step function
